@@ -314,6 +314,27 @@ func (e *vestEnv) checkSolvency(c *fw.Case, o *txOutcome) {
 			sum.Add(sum, p.locked())
 		}
 	}
+	// what a restart would start from: the module's exported genesis lists every stored pool
+	// unchanged, used-up ones included (their owners still query and withdraw - nothing)
+	if p := safeCall("ExportGenesis", func() {
+		exported := map[string]string{}
+		for _, avp := range cfevesting.ExportGenesis(e.n.Ctx(), e.n.App.CfevestingKeeper).AccountVestingPools {
+			for _, p := range avp.VestingPools {
+				exported[avp.Owner+"/"+p.Name] = fmt.Sprint(p.InitiallyLocked, p.Sent, p.Withdrawn, p.LockEnd.UnixNano(), p.GenesisPool, p.VestingType)
+			}
+		}
+		for _, avp := range e.n.App.CfevestingKeeper.GetAllAccountVestingPools(e.n.Ctx()) {
+			for _, p := range avp.VestingPools {
+				if exported[avp.Owner+"/"+p.Name] != fmt.Sprint(p.InitiallyLocked, p.Sent, p.Withdrawn, p.LockEnd.UnixNano(), p.GenesisPool, p.VestingType) {
+					c.ViolateD("C06/pool-not-exported", map[string]string{"op": o.op.desc, "pool": p.String()}, "after %s: the exported cfevesting genesis does not carry pool %s of %s as stored (remainder %s)", o.op.kind, p.Name, short(avp.Owner, 12), p.GetCurrentlyLocked())
+					c.ViolateD("C05/pool-not-exported", map[string]string{"op": o.op.desc, "pool": p.String()}, "after %s: the exported cfevesting genesis does not carry pool %s of %s as stored", o.op.kind, p.Name, short(avp.Owner, 12))
+					return
+				}
+			}
+		}
+	}); p != nil {
+		c.ViolateD("C20/export-panic", p.Stack, "cfevesting ExportGenesis panicked: %s", short(p.Value, 200))
+	}
 	if bal := o.post.Bal(e.moduleAddr, vDenom); bal.Cmp(sum) != 0 {
 		c.ViolateD("C05/module-balance-vs-pools", map[string]string{"op": o.op.desc, "code": fmt.Sprint(o.res.Code)}, "after %s (code %d): vesting module account holds %s but pools lock %s", o.op.kind, o.res.Code, bal, sum)
 	}
